@@ -69,9 +69,17 @@ fn sheet_map() -> BTreeMap<&'static str, (&'static str, &'static str)> {
 /// Expected annotation vector (Debug strings) of every token character.  `strict_pre`:
 /// Preformat at the <pre>'s place in the ancestor chain; otherwise appended last.
 pub fn expected(d: &Dom, strict_pre: bool) -> BTreeMap<char, Vec<String>> {
+    expected_with_elems(d, strict_pre).0
+}
+/// As `expected`, plus the annotation vector in force inside every element (whether or not it
+/// has text): the vectors a prefix, border or padding piece may legitimately carry.
+pub fn expected_with_elems(d: &Dom, strict_pre: bool) -> (BTreeMap<char, Vec<String>>, BTreeSet<Vec<String>>) {
     let sheet = sheet_map();
     let mut out = BTreeMap::new();
-    fn go(d: &Dom, i: usize, stack: &mut Vec<String>, pre: bool, strict_pre: bool, sheet: &BTreeMap<&str, (&str, &str)>, out: &mut BTreeMap<char, Vec<String>>) {
+    let mut elems = BTreeSet::new();
+    type Acc<'a> = (&'a mut BTreeMap<char, Vec<String>>, &'a mut BTreeSet<Vec<String>>);
+    fn go(d: &Dom, i: usize, stack: &mut Vec<String>, pre: bool, strict_pre: bool, sheet: &BTreeMap<&str, (&str, &str)>, acc: &mut Acc) {
+        let (out, elems) = (&mut *acc.0, &mut *acc.1);
         match &d.nodes[i].data {
             Data::Text(t) => {
                 for c in t.chars().filter(|c| is_tok(*c)) {
@@ -131,21 +139,22 @@ pub fn expected(d: &Dom, strict_pre: bool) -> BTreeMap<char, Vec<String>> {
                         _ => {}
                     }
                 }
+                elems.insert(stack.clone());
                 for &k in &d.nodes[i].kids {
-                    go(d, k, stack, p, strict_pre, sheet, out);
+                    go(d, k, stack, p, strict_pre, sheet, acc);
                 }
                 stack.truncate(before);
             }
             Data::Doc => {
                 for &k in &d.nodes[i].kids {
-                    go(d, k, stack, pre, strict_pre, sheet, out);
+                    go(d, k, stack, pre, strict_pre, sheet, acc);
                 }
             }
             _ => {}
         }
     }
-    go(d, 0, &mut vec![], false, strict_pre, &sheet, &mut out);
-    out
+    go(d, 0, &mut vec![], false, strict_pre, &sheet, &mut (&mut out, &mut elems));
+    (out, elems)
 }
 
 fn norm(tags: &[String]) -> Vec<String> {
@@ -155,7 +164,7 @@ fn norm(tags: &[String]) -> Vec<String> {
 pub fn check(html: &str, w: usize, cx: &mut Cx) {
     let cfg = Cfg::rich().with(Opt::DocCss).with(Opt::UserCss(SHEET.to_string()));
     let d = dom::parse(html.as_bytes());
-    let strict = expected(&d, true);
+    let (strict, elem_vectors) = expected_with_elems(&d, true);
     let lenient = expected(&d, false);
     let r = cx.render_lines(html.as_bytes(), w, &cfg);
     let rs = cx.render(html.as_bytes(), w, &cfg);
@@ -179,7 +188,7 @@ pub fn check(html: &str, w: usize, cx: &mut Cx) {
     // every prefix of an expected vector is a legitimate vector for prefixes / borders / padding
     let mut legit: BTreeSet<Vec<String>> = BTreeSet::new();
     legit.insert(vec![]);
-    for v in lenient.values().chain(strict.values()) {
+    for v in lenient.values().chain(strict.values()).chain(elem_vectors.iter()) {
         for k in 0..=v.len() {
             legit.insert(v[..k].to_vec());
         }
@@ -321,6 +330,8 @@ fn contexts(r: Vec<N>) -> Vec<Vec<N>> {
         // nested table inside a coloured cell (e-mail style markup)
         vec![e("table", vec![e("tr", vec![ea("td", &col, vec![e("table", vec![e("tr", vec![ea("td", &bg, r.clone()), e("td", vec![t("z")])])]), t("y")]), e("td", vec![t("w")])])]), e("p", vec![t("v")])],
         vec![e("strong", vec![e("ul", vec![ea("li", &col, r.clone()), e("li", vec![t("z")])]), t("y")])],
+        // a coloured row without any content (spacer row) before the row holding the run
+        vec![e("table", vec![ea("tr", &col, vec![e("td", vec![]), e("td", vec![t(" ")])]), e("tr", vec![e("td", r.clone()), e("td", vec![t("z")])]), ea("tr", &bg, vec![e("td", vec![])]), e("tr", vec![e("td", vec![t("y")])])]), e("p", vec![t("w")])],
         // pre with several lines: a long first line, the next line starting with the inline run
         vec![e("pre", { let mut v = vec![t("zzzzzzzzzzzzzzzzzzzzzzzz\n")]; v.extend(r.clone()); v.push(t("\nyy")); v })],
     ]
@@ -347,8 +358,8 @@ impl Scope for S {
     }
     fn info(&self) -> Info {
         Info {
-            rule: "inline nestings (every chain of wrappers up to the stated depth over 13 wrappers incl. links, images, sup, inline-style / class / color= colours) in two run shapes x 24 block contexts (p, li, quote, heading, table cell, dt, dd, pre, div, coloured div/table/tr/td/ul/li/ol/blockquote, list inside em, pre in quote in list, nested table, styled cells inside annotated contexts followed by siblings) x every width (so every token is also seen wrapped); expected vectors from the oracle DOM; non-trivial = some piece carries >= 2 annotations or the output has >= 2 lines".into(),
-            bounds: json!({"chains": self.chains.len(), "max_chain_depth": self.chains.iter().map(|c| c.len()).max(), "wrappers": INL.iter().map(|w| format!("{}{:?}", w.0, w.1)).collect::<Vec<_>>(), "contexts": 24, "widths": format!("1..={}", self.maxw)}),
+            rule: "inline nestings (every chain of wrappers up to the stated depth over 13 wrappers incl. links, images, sup, inline-style / class / color= colours) in two run shapes x 25 block contexts (p, li, quote, heading, table cell, dt, dd, pre, div, coloured div/table/tr/td/ul/li/ol/blockquote, list inside em, pre in quote in list, nested table, styled cells inside annotated contexts followed by siblings) x every width (so every token is also seen wrapped); expected vectors from the oracle DOM; non-trivial = some piece carries >= 2 annotations or the output has >= 2 lines".into(),
+            bounds: json!({"chains": self.chains.len(), "max_chain_depth": self.chains.iter().map(|c| c.len()).max(), "wrappers": INL.iter().map(|w| format!("{}{:?}", w.0, w.1)).collect::<Vec<_>>(), "contexts": 25, "widths": format!("1..={}", self.maxw)}),
             assumptions: vec!["RichAnnotation::Default (pushed for <sup>) is treated as neutral".into(), "Preformat's continuation flag is C12's subject and is ignored here".into(), "colours come from single uncontested declarations (the cascade is C19's subject)".into()],
         }
     }
